@@ -73,6 +73,7 @@ func (st *State) clone() *State {
 	n.errMsgs = copyMap(st.errMsgs)
 	n.sharedHandles = copyMap(st.sharedHandles)
 	n.ghost = nil
+	n.known = copyMap(st.known)
 	// per-path statistics start from zero in the copy (they are summed over all executed states)
 	n.fnCount = map[*ssa.Function]int{}
 	n.stubCnt = map[string]int{}
